@@ -34,6 +34,14 @@ pub fn dispatch(op: &str, req: &Value) -> Result<Value, String> {
         return crate::ops_stateres::c08(k, req);
     }
     #[cfg(feature = "common")]
+    if op == "c17:content_disposition" {
+        let b = crate::arg_bytes(req, "s")?;
+        return Ok(match ruma_common::http_headers::ContentDisposition::try_from(&b[..]) {
+            Ok(v) => json!({"r": "ok", "v": v.to_string()}),
+            Err(e) => json!({"r": "err", "e": e.to_string()}),
+        });
+    }
+    #[cfg(feature = "common")]
     if let Some(k) = op.strip_prefix("c12:") {
         return crate::ops_common::c12(k, req);
     }
